@@ -700,20 +700,10 @@ theorem cons_putLIDsInQueue_activeconc_eq_collector (encB : Nat → SV.Collector
 
 example : (([([5], [1])] : List (SV.Collector.Bytes × List Nat)).lookup ((fun n => [n]) 5)).isSome := by decide
 
-/- OPEN (not attempted for lack of time, no known obstacle): the whole C07 writer run against C17's `indexBulk`.
-   Intended statement: for a state `s` in which writer `i` is idle and no other writer is between `wBlock` and `wStats`,
-   `run c s [wNew i ds, wBlock i, wPos i, wIds i, wTokGet i, wToks i, wQueue i ^ (1 + |bulkToks ds|), wStats i] = some s'`
-   implies `ShRel s'.sh (indexBulk a (ds.map toMeta))` whenever `ShRel s.sh a`, where `ShRel sh a` is
-     sh.blocks = a.blocks.length,
-     a.dp = sh.pos.map (fun e => (e.1, (e.2.1, 5 * e.2.2)))            (`cons_setMultiple_collector_rename`),
-     a.ids = systemID :: sh.ids.map Doc.id                              (LID shift by one: C07 does not model LID 0),
-     queue a allToken = sh.all.map (· + 1),  queue a (enc t).bytes = (sh.tok t).map (· + 1)   (documents without repeated tokens),
-     (a.from_, a.to) = rangeToSentinel sh.range,  a.docsTotal = sh.docsTotal.
-   The per-step ingredients are proved above and in Positions.lean: `cons_setMultiple_activeconc_eq_collector`,
-   `cons_filter_activeconc_eq_collector`, `cons_dedupCollector_ids_unconditional`, `cons_blocksAppend_numbering`,
-   `cons_tokensValues_activeconc_eq_collector`, `cons_queuedLIDs_activeconc_eq_collector`,
-   `cons_queuedAll_activeconc_eq_collector`, `cons_tokenListAppend_activeconc_eq_collector`,
-   `cons_putLIDsInQueue_activeconc_eq_collector`, `cons_statsOf_activeconc_eq_collector`,
-   `cons_updateStats_activeconc_eq_collector`. -/
+/- (formerly OPEN) the whole uninterleaved C07 writer run (`wNew .. wStats`) against C17's `indexBulk` is now PROVED in
+   Consistency/CollectorRun.lean: `cons_appendWorker_activeconc_run_eq_collector_indexBulk` (state relation `ShRel`: block
+   count, positions renamed `(b, k) -> (b, 5 k)`, `a.ids = systemID :: sh.ids.map id` (LID shift by one), `_all_` and token
+   queues shifted by one, sentinel range, docsTotal), for every configuration `c`, using the per-step lemmas of this file
+   and of Positions.lean. -/
 
 end SV.Consistency
